@@ -32,7 +32,12 @@ _CUR = {"rec": None}
 def _rec_key(algo):
     key = "verifrec:" + algo
     if key not in SCHEDULING_ALGOS:
-        real_algo = sim._starter_key() if algo == "starter" else algo
+        # "resumeflag:<algo>": the decisions of <algo>, with is_resume=True on every assignment for a pipeline that already had one
+        # (how an external / custom scheduler marks re-assigned work; the flag must not change what is counted)
+        flag_resume = algo.startswith("resumeflag:")
+        base_algo = algo.split(":", 1)[1] if flag_resume else algo
+        real_algo = sim._starter_key() if base_algo == "starter" else base_algo
+        had = {}
 
         @register_scheduler_init(key=key)
         def _init(s, _real=real_algo):
@@ -59,6 +64,13 @@ def _rec_key(algo):
                     if all(o.state() == S.COMPLETED for o in ops):
                         rec.complete_seen[pid] = rec.calls
             sus, asg = SCHEDULING_ALGOS[_real](s, results, pipelines)
+            if flag_resume:
+                if rec.calls == 0:
+                    had.clear()
+                for a in asg:
+                    if had.get(a.pipeline_id):
+                        a.is_resume = True
+                    had[a.pipeline_id] = True
             rec.ticks.append(dict(new=[p.pipeline_id for p in pipelines], results_in=len(results),
                                   sus=[(x.container_id, x.pool_id) for x in sus],
                                   asg=[(a.pipeline_id, [id(o) for o in a.ops], a.cpu, a.ram, a.pool_id) for a in asg],
